@@ -148,6 +148,18 @@ PRE_SHAPES: List[List[List[Any]]] = [
 ]
 
 
+def low_type_cases() -> Iterable[Dict[str, Any]]:
+    """message types 0 (EXIT) and 1 (KILL) next to the zero padding of the configured type list: a data set with a
+    list never records EXIT, records KILL exactly when 1 is in its list; a data set selecting everything records both
+    (type index 3 = EXIT, 4 = KILL)"""
+    dss = [{"fmt": "raw", "types": [0], "interval": 0}, {"fmt": "quicklogger", "types": [4, 1], "interval": 0},
+           {"fmt": "json", "types": "A", "interval": 0}]
+    ops = [["u", 1, 3], ["u", 1, 0], ["u", 16, 4], ["u", 1, 3], ["u", 16, 1], ["u", 1, 4]]
+    for s in ["", "RW" * 80, "RRRRRWWW" * 14, "R" * 200]:
+        yield {"ds": dss, "ops": number_ops(ops), "sched": s}
+        yield {"ds": dss[:2], "ops": number_ops(ops[:4]), "sched": s, "pre": [["u", 1, 3, 901], ["u", 1, 4, 902]]}
+
+
 def outside_session_cases() -> Iterable[Dict[str, Any]]:
     """messages, ticks, pause and resume that arrive while no recording is running, then a session"""
     progs = [SMALL_PROGRAMS[0], SMALL_PROGRAMS[2], SMALL_PROGRAMS[3],
@@ -180,7 +192,7 @@ def random_case(rng, long: bool) -> Dict[str, Any]:
     nds = rng.choice([1, 1, 2, 2, 3])
     dss = []
     for _ in range(nds):
-        sel = rng.choice(["A", "A", [0], [1], [0, 2], [1, 2], [0, 1, 2]])
+        sel = rng.choice(["A", "A", [0], [1], [0, 2], [1, 2], [0, 1, 2], [4, 0], [2, 4]])
         dss.append({"fmt": rng.choice(D.FORMATS), "types": sel, "interval": rng.choice([0, 0, 30, 30, 45, 10])})
     nops = rng.randint(20, 50) if long else rng.randint(3, 12)
     ops: List[List[Any]] = []
@@ -188,7 +200,7 @@ def random_case(rng, long: bool) -> Dict[str, Any]:
         k = rng.random()
         dt = rng.choice([0, 0, 1, 1, 2, 5, 8, 16, 16, 31])
         if k < 0.70:
-            ops.append(["u", dt, rng.randrange(3)])
+            ops.append(["u", dt, rng.randrange(3) if rng.random() < 0.9 else rng.choice([3, 4])])
         elif k < 0.85:
             ops.append(["t", dt])
         elif k < 0.93:
@@ -226,7 +238,7 @@ def fine_directed() -> Iterable[Dict[str, Any]]:
     scheds = ["", "R" * 900, "W" * 25, "RW" * 300, "RRW" * 200, "RWW" * 200, "RRRRRWWW" * 80, "RWWWWW" * 120,
               "RRRRRRRRW" * 80, "R" * 9 + "W" * 6 + "R" * 30, "R" * 9 + "W" * 3 + "R" * 12 + "W" * 9 + "R" * 40]
     seen = set()
-    for case in itertools.chain(directed_cases(), outside_session_cases()):
+    for case in itertools.chain(directed_cases(), outside_session_cases(), low_type_cases()):
         key = (str(case["ds"]), str(case["ops"]), str(case.get("pre")))
         if key in seen:
             continue
@@ -570,7 +582,7 @@ def run(res: C.Result, deep: bool):
     for p in sorted((C.CORPUS / PROP).glob("*.case")) if (C.CORPUS / PROP).is_dir() else []:
         import json
         items.append((f"c{n}", "S", json.loads(p.read_text()))); n += 1
-    for case in itertools.chain(directed_cases(), outside_session_cases()):
+    for case in itertools.chain(directed_cases(), outside_session_cases(), low_type_cases()):
         items.append((f"d{n}", "S", case)); n += 1
     ex = list(exhaustive_cases(deep))
     for case in ex:
